@@ -15,6 +15,7 @@
 #include <string.h>
 #include <stdlib.h>
 #include <stdarg.h>
+#include <limits.h>
 /* internal headers: libzvbi.h cannot be combined with cc608_decoder.h (third opinion for triage) */
 #include "vbi.h"
 #include "sliced.h"
@@ -481,11 +482,25 @@ static const char *pair_class(int a, int b)
 	return buf;
 }
 
+/* how far into the history the first mismatch lies */
+static long mm_progress(const struct mismatch *mm)
+{
+	return (((long)mm->ck * 8 + mm->page) * M_ROWS + mm->row) * M_COLS + mm->col;
+}
+
+static unsigned m_open_quirks(void)
+{
+	unsigned S = 0;
+	int q;
+	for (q = 0; q < Q_COUNT; q++) if (m_quirk_open[q] != QK_REPAIRED) S |= QBIT(q);
+	return S;
+}
+
 /* returns bitmask of quirks that explain the divergence (0 = none needed), or ~0u for an unexplained one */
 static unsigned judge(void)
 {
 	struct mismatch strict, all, t;
-	unsigned S, ALL = (1u << Q_COUNT) - 1u;
+	unsigned S, OPT, ALL = (1u << Q_COUNT) - 1u;
 	int q, changed, k, p;
 
 	collect_evidence = 1;
@@ -518,16 +533,47 @@ static unsigned judge(void)
 	if (ev_other) vf_fail("model:C08:event-pgno", "%d caption events with a page number outside 1..8", ev_other);
 
 	if (!strict.any) return 0;
+	/* behaviour the standard leaves to the decoder (QK_OPTION): either setting is the strict model */
+	OPT = 0;
+	for (q = 0; q < Q_COUNT; q++) if (m_quirk_open[q] == QK_OPTION) OPT |= QBIT(q);
+	if (OPT && !evaluate(OPT, &t)) { vf_count("cases_agreeing_with_strict_model_optional_features_off", 1); return 0; }
 	vf_count("cases_diverging_from_strict", 1);
-	evaluate(ALL, &all);
-	if (all.any) {
-		char key[80];
-		snprintf(key, sizeof key, "model:C08:%s", all.kind);
-		vf_fail(key, "not explained by any listed quirk. With all quirks on: %s || strict model: %s | %s", witness_detail(&all, ALL), strict.kind, case_desc);
-		dump_pages_verbose(ALL, &all);
-		return ~0u;
+
+	/* Which set S of named quirks makes the model an exact oracle again for this history?
+	 * 1. the open (expected) quirks; 2. every quirk, including those repaired by a proposed fix
+	 * (an unpatched tree); 3. hill climbing from the open set: toggle the quirk that moves the
+	 * first mismatch furthest towards the end of the history (partially patched trees).
+	 * Only a set with NO remaining mismatch counts as an explanation, and every member of the
+	 * minimised set is reported under its own key - a repaired quirk has no known-findings entry
+	 * and therefore always alarms.  Anything else is a plain violation. */
+	S = m_open_quirks();
+	if (evaluate(S, &t)) {
+		if (!evaluate(ALL, &all)) S = ALL;
+		else {
+			long best = mm_progress(&t);
+			int steps;
+			for (steps = 0; steps < 2 * Q_COUNT; steps++) {
+				int bq = -1;
+				long bp = best;
+				for (q = 0; q < Q_COUNT; q++) {
+					long pr = evaluate(S ^ QBIT(q), &t) ? mm_progress(&t) : LONG_MAX;
+					if (pr > bp) { bp = pr; bq = q; }
+				}
+				if (bq < 0) break;
+				S ^= QBIT(bq); best = bp;
+				if (best == LONG_MAX) break;
+			}
+			if (best != LONG_MAX) {
+				char key[80];
+				evaluate(S, &all);
+				snprintf(key, sizeof key, "model:C08:%s", all.kind);
+				vf_fail(key, "not explained by any set of listed quirks. Closest model (quirks 0x%x): %s || strict model: %s | %s", S, witness_detail(&all, S), strict.kind, case_desc);
+				dump_pages_verbose(S, &all);
+				vf_count("cases_unexplained", 1);
+				return ~0u;
+			}
+		}
 	}
-	S = ALL;
 	do {
 		changed = 0;
 		for (q = 0; q < Q_COUNT; q++) {
@@ -538,16 +584,21 @@ static unsigned judge(void)
 	{
 		char set[400];
 		size_t n = 0;
+		unsigned B = S & OPT;
 		set[0] = 0;
+		if (B) evaluate(B, &strict);               /* strict model with the optional features as this decoder has them */
+		S &= ~OPT;
+		if (!S || !strict.any) return 0;
 		for (q = 0; q < Q_COUNT; q++) if (S & QBIT(q)) n += (size_t)snprintf(set + n, sizeof set - n, "%s%s", n ? "+" : "", m_quirk_name[q]);
 		for (q = 0; q < Q_COUNT; q++)
 			if (S & QBIT(q)) {
 				char key[80];
 				snprintf(key, sizeof key, "model:C08:%s", m_quirk_name[q]);
-				vf_fail(key, "divergence from the strict model disappears exactly with {%s}. Strict: %s | %s", set, witness_detail(&strict, 0), case_desc);
+				vf_fail(key, "divergence from the strict model disappears exactly with {%s}%s. Strict: %s | %s", set,
+					m_quirk_open[q] == QK_OPEN ? "" : " (this quirk is repaired by a proposed fix: regression or unpatched tree)", witness_detail(&strict, B), case_desc);
 				vf_count(m_quirk_name[q], 1);
 			}
-		dump_pages_verbose(0, &strict);
+		dump_pages_verbose(B, &strict);
 	}
 	return S;
 }
